@@ -49,6 +49,41 @@ def make_app():
                        out_protocol=Soap11(polymorphic=True))
 
 
+def make_app_json():
+    """Second application: HttpRpc in, JsonDocument(complex_as=list) out, a class whose members carry
+    protocol-specific attributes (order, sub_name) - so that the per-protocol caches (_attrcache,
+    _sortcache) hold values that differ from the declaration defaults."""
+    from spyne import Application, Service, srpc, Integer, Unicode, ComplexModel, Array
+    from spyne.protocol.http import HttpRpc
+    from spyne.protocol.json import JsonDocument
+
+    class Point(ComplexModel):
+        __namespace__ = 'tns'
+        _type_info = [
+            ('label', Unicode(pa={JsonDocument: dict(order=2)})),
+            ('x', Integer(pa={JsonDocument: dict(order=0)})),
+            ('y', Integer(pa={JsonDocument: dict(order=1)})),
+        ]
+
+    class Seg(ComplexModel):
+        __namespace__ = 'tns'
+        _type_info = [('b', Point.customize(pa={JsonDocument: dict(order=1)})), ('a', Point.customize(pa={JsonDocument: dict(order=0)}))]
+
+    class S(Service):
+        @srpc(Integer, _returns=Point)
+        def pt(n): return Point(label=u'p%d' % n, x=n, y=n * 10)
+
+        @srpc(Integer, _returns=Seg)
+        def seg(n): return Seg(a=Point(label=u'a', x=n, y=1), b=Point(label=u'b', x=2, y=n))
+
+        @srpc(Integer, _returns=Array(Point))
+        def pts(n): return [Point(label=u'q', x=i, y=n) for i in range(2)]
+    return Application([S], 'tns', name='App2', in_protocol=HttpRpc(), out_protocol=JsonDocument(complex_as=list))
+
+
+JSON_REQS = {'pt': ('/pt', 'n=3'), 'pt2': ('/pt', 'n=4'), 'seg': ('/seg', 'n=5'), 'pts': ('/pts', 'n=6')}
+
+
 REQS = {
     'fp': '<tns:fp/>', 'fq': '<tns:fq/>', 'f': '<tns:f><tns:a>21</tns:a></tns:f>',
     'g': '<tns:g><tns:s>hey</tns:s></tns:g>', 'boom': '<tns:boom><tns:a>3</tns:a></tns:boom>',
@@ -57,6 +92,10 @@ REQS = {
 
 
 def env_for(name):
+    if name in JSON_REQS:
+        path, qs = JSON_REQS[name]
+        return {'REQUEST_METHOD': 'GET', 'PATH_INFO': path, 'QUERY_STRING': qs, 'wsgi.input': io.BytesIO(b''),
+                'wsgi.url_scheme': 'http', 'SERVER_NAME': 'x', 'SERVER_PORT': '80'}
     if name == 'wsdl':
         return {'REQUEST_METHOD': 'GET', 'PATH_INFO': '/', 'QUERY_STRING': 'wsdl', 'wsgi.input': io.BytesIO(b''),
                 'wsgi.url_scheme': 'http', 'SERVER_NAME': 'x', 'SERVER_PORT': '80'}
@@ -75,6 +114,8 @@ def call(w, name):
 def canon(body):
     """Response bytes -> a prefix-independent tree (QNames in xsi:type resolved in scope)."""
     from lxml import etree
+    if body[:1] in (b'[', b'{'):
+        return ('json', body)
     try:
         root = etree.fromstring(body)
     except Exception:
@@ -144,5 +185,5 @@ def targets():
     import spyne.protocol._base as PB, spyne.model._base as MB, spyne.server.wsgi as W
     import spyne.interface.wsdl.wsdl11 as WS, spyne.context as CX
     return {IB.__file__: {'get_namespace_prefix'}, M.__file__: None, CD.__file__: None,
-            PB.__file__: {'get_cls_attrs', 'get_context'}, MB.__file__: {'get_namespace_prefix', 'get_type_name_ns'},
+            PB.__file__: None, MB.__file__: {'get_namespace_prefix', 'get_type_name_ns'},
             W.__file__: {'handle_wsdl_request'}, WS.__file__: {'build_interface_document', 'get_interface_document'}}
